@@ -1,11 +1,154 @@
 import SigModel.Driver.Loop
+import SigModel.Spec.Transient
 
-/-! Driver for C14 — stub (no model yet). -/
+/-! Driver for C14 — transient room data (`Model/Transient.lean`, `Spec/Transient.lean`).
+
+Keys and values stay the (percent-encoded) tokens of the op line: the model treats
+them as opaque; `~` is Go's `nil`. -/
 namespace SigModel.Driver.C14
+open SigModel.Proto SigModel.Transient
+
+def nilTok : String := "~"
+
+def optVal (tok : String) : Option Val := if tok == nilTok then none else some tok
+
+def parseOp : List String → Option Op
+  | ["set", k, v, ttl] => do some (.set k (optVal v) (← toInt? ttl))
+  | ["set0", k, v] => some (.set k (optVal v) 0)
+  | ["cas", k, old, v, ttl] => do some (.cas k (optVal old) (optVal v) (← toInt? ttl))
+  | ["cas0", k, old, v] => some (.cas k (optVal old) (optVal v) 0)
+  | ["rm", k] => some (.remove k)
+  | ["casrm", k, old] => some (.casRemove k (optVal old))
+  | ["add", l] => do some (.addListener (← toNat? l))
+  | ["del", l] => do some (.removeListener (← toNat? l))
+  | ["get"] => some .get
+  | ["adv", dt] => do
+    let d ← toInt? dt
+    some (.advance d.toNat)
+  | _ => none
+
+/-! ### rendering (must match `vC14World.observe` of the harness) -/
+
+def showOpt : Option Val → String
+  | some v => v
+  | none => nilTok
+
+def showMap (m : List (Key × Val)) : String :=
+  "{" ++ ",".intercalate ((canonMap m).map (fun p => p.1 ++ "=" ++ p.2)) ++ "}"
+
+def showMsg : Msg → String
+  | .initial d => "init" ++ showMap d
+  | .set k v old => "set(" ++ k ++ "," ++ v ++ "," ++ showOpt old ++ ")"
+  | .remove k old => "rm(" ++ k ++ "," ++ old ++ ")"
+
+def insertNat (n : Nat) : List Nat → List Nat
+  | [] => [n]
+  | m :: r => if n < m then n :: m :: r else if n = m then m :: r else m :: insertNat n r
+
+def sortNats (ns : List Nat) : List Nat := ns.foldr insertNat []
+
+def showRet : Option Bool → String
+  | some true => "1"
+  | some false => "0"
+  | none => "-"
+
+def showOut (out : Out) : List String :=
+  (sortNats (out.map (·.1))).map (fun l =>
+    s!"L{l}:" ++ ";".intercalate ((msgsFor l out).map showMsg))
+
+def showRes (r : Res) : String :=
+  joinToks (["r=" ++ showRet r.ret] ++ showOut r.out ++
+    ["d=" ++ showMap r.st.data,
+     "t={" ++ ",".intercalate ((canonMap r.st.tmap).map (·.1)) ++ "}"])
+
+/-! ### parsing the implementation's line -/
+
+def splitTop (s : String) (sep : Char) : List String :=
+  if s.isEmpty then [] else s.splitOn (String.singleton sep)
+
+/-- `{k=v,k=v}` -/
+def parseMap (s : String) : Option (List (Key × Val)) :=
+  let cs := s.toList
+  if cs.head? ≠ some '{' ∨ cs.getLast? ≠ some '}' then none else
+  let inner := String.ofList ((cs.drop 1).dropLast)
+  (splitTop inner ',').mapM (fun item =>
+    match item.splitOn "=" with
+    | [k, v] => some (k, v)
+    | _ => none)
+
+def stripParens (pfx s : String) : Option String :=
+  if hasPrefix pfx s ∧ s.toList.getLast? = some ')' then
+    some (String.ofList ((s.toList.drop pfx.length).dropLast))
+  else none
+
+def parseMsg (s : String) : Option Msg :=
+  if hasPrefix "init" s then (parseMap (dropS 4 s)).map .initial
+  else if hasPrefix "set(" s then
+    match (stripParens "set(" s).map (·.splitOn ",") with
+    | some [k, v, old] => some (.set k v (optVal old))
+    | _ => none
+  else if hasPrefix "rm(" s then
+    match (stripParens "rm(" s).map (·.splitOn ",") with
+    | some [k, old] => some (.remove k old)
+    | _ => none
+  else none
+
+/-- `L<id>:<msg>;<msg>` -/
+def parseListenerTok (tok : String) : Option Out :=
+  match (dropS 1 tok).splitOn ":" with
+  | idS :: rest =>
+    match toNat? idS with
+    | some l =>
+      -- the messages themselves contain ':' (value tokens), so re-join
+      let body := ":".intercalate rest
+      ((splitTop body ';').mapM parseMsg).map (fun ms => ms.map (fun m => (l, m)))
+    | none => none
+  | [] => none
+
+def parseObs (toks : List String) : Option Obs :=
+  let rec go (ts : List String) (o : Obs) (seenR seenD seenT : Bool) : Option Obs :=
+    match ts with
+    | [] => if seenR ∧ seenD ∧ seenT then some o else none
+    | t :: rest =>
+      if hasPrefix "r=" t then
+        let r := dropS 2 t
+        let ret := if r == "1" then some (some true) else if r == "0" then some (some false)
+                   else if r == "-" then some none else none
+        match ret with
+        | some x => go rest { o with ret := x } true seenD seenT
+        | none => none
+      else if hasPrefix "d=" t then
+        match parseMap (dropS 2 t) with
+        | some d => go rest { o with data := d } seenR true seenT
+        | none => none
+      else if hasPrefix "t=" t then
+        match parseMap' (dropS 2 t) with
+        | some ks => go rest { o with tkeys := ks } seenR seenD true
+        | none => none
+      else if hasPrefix "L" t then
+        match parseListenerTok t with
+        | some ms => go rest { o with msgs := o.msgs ++ ms } seenR seenD seenT
+        | none => none
+      else none
+  go toks { ret := none, msgs := [], data := [], tkeys := [] } false false false
+where
+  parseMap' (s : String) : Option (List Key) :=
+    let cs := s.toList
+    if cs.head? ≠ some '{' ∨ cs.getLast? ≠ some '}' then none else
+    some (splitTop (String.ofList ((cs.drop 1).dropLast)) ',')
 
 structure St where
-  dummy : Unit := ()
+  model : State := {}
+  judge : Judge := {}
 
-def step (st : St) (_op _impl : List String) : St × String × String := (st, "bad-op", "na")
+def step (st : St) (op impl : List String) : St × String × String :=
+  match parseOp op with
+  | none => (st, "bad-op", "na")
+  | some o =>
+    let r := SigModel.Transient.step st.model o
+    let (j', v) := match parseObs impl with
+      | some obs => st.judge.observe o obs
+      | none => (st.judge, if impl.isEmpty then "na" else "violated:unparsable-implementation-output")
+    ({ model := r.st, judge := j' }, showRes r, v)
 
 end SigModel.Driver.C14
